@@ -8,6 +8,7 @@
    runnable has exited is read from processGC (gen/Extracted.v: sup_done_ready_needs_exit). *)
 From Coq Require Import List ZArith Lia Bool Arith.
 From WH Require Import gen.Extracted model.Supervisor proofs.SupervisorProofs.
+From WH Require Import gen.ExtractedTree model.NodeTree proofs.NodeTreeProofs.
 Import ListNotations.
 Open Scope Z_scope.
 
@@ -117,6 +118,125 @@ Example C18_example :
     running [] s = 1%nat.
 Proof. eexists. split; [vm_compute; reflexivity|]. vm_compute. repeat split; try reflexivity; eexists; split; reflexivity. Qed.
 
+(* ================================================================================================================================
+   X9 — THE SUPERVISOR COMPOSED WITH THE GUARDIAN NODE'S OWN SERVICE TREE (node/cmd/guardiand/node.go).
+   gen/ExtractedTree.v (regenerated from the source on every run) holds the options of the one supervisor.New call, the root runnable
+   statement by statement (every supervisor.Run with its name, its flag condition, what its error does; the fallible constructor; the
+   final `<-ctx.Done(); return nil`), and per service what its function does with goroutines / recover / rootCtxCancel.
+   model/NodeTree.v runs Supervisor.v's tree under that root program; services below the root stay abstract.  The theorems hold for
+   every flag configuration c and every history of process-level events. *)
+Notation node_step := (pstep sup_done_ready_needs_exit node_tree).
+Notation node_run := (prun sup_done_ready_needs_exit node_tree).
+
+(* what the theorems below need of the extracted tree, by computation: service names and runnables pairwise distinct, one service per
+   supervisor.Run statement (no RunGroup), the root runnable never signals and ends `<-ctx.Done(); return nil` *)
+Lemma node_tree_ok :
+  distinct_ids node_tree = true /\ distinct_runnables node_tree = true /\ singleton_groups node_tree = true /\
+  root_never_signals node_tree = true /\ ends_wait_return (nt_prog node_tree) = true.
+Proof. vm_compute. repeat split. Qed.
+
+(* C18 (1) for the node: never two instances of a service — by name, and by service FUNCTION (no runnable is started under two names) *)
+Theorem C18_node_at_most_one_instance : forall c h s d, node_run c h pinit = PRun s -> (running d (p_sup s) <= 1)%nat.
+Proof. exact (node_at_most_one_instance node_tree). Qed.
+
+Theorem C18_node_one_instance_per_service_function : forall c h s r, node_run c h pinit = PRun s -> (instances_of_runnable node_tree r (p_sup s) <= 1)%nat.
+Proof. intros c h s r. apply node_one_instance_per_runnable. apply node_tree_ok. Qed.
+
+(* the supervision groups of the services are the statements of the root runnable, after every history (with C18_invariant) *)
+Theorem C18_node_groups_are_the_run_statements : forall c h s, node_run c h pinit = PRun s -> PInv node_tree s.
+Proof. intros c h s. apply node_pinv. apply node_tree_ok. Qed.
+
+(* C18 (3a) by name: the unexpected exit of service x (nil, an error, a captured panic, its context's error while not cancelled) marks
+   x DEAD and cancelled and changes NO other node of the tree: every service is a supervision group of its own *)
+Theorem C18_node_service_exit_cancels_nobody_else : forall c h s x k t' i,
+  node_run c h pinit = PRun s -> proc_died [x] k (s_tree (p_sup s)) = Some t' -> find [x] (s_tree (p_sup s)) = Some i ->
+  ~ (n_state i = SDone /\ k = RNil) -> ~ (cancelled [x] (s_tree (p_sup s)) = true /\ k = RCtx) ->
+  (exists j, find [x] t' = Some j /\ n_state j = SDead /\ n_flag j = true /\ n_exited j = true) /\
+  forall z a, find z (s_tree (p_sup s)) = Some a -> z <> [x] -> exists a', find z t' = Some a' /\ n_state a' = n_state a /\ n_flag a' = n_flag a.
+Proof.
+  intros c h s x k t' i Hrun Hpd Hx H1 H2. destruct (C18_node_groups_are_the_run_statements c h s Hrun) as [Hinv Hg]. split.
+  - exact (proj1 (service_exit_cancels_exactly_its_group node_tree _ x k t' i Hinv Hg Hpd Hx H1 H2)).
+  - apply (service_exit_cancels_nobody_else node_tree (p_sup s) x k t' i); try assumption. apply node_tree_ok.
+Qed.
+
+(* C18 (3b) by name: it is started again — next GC, back-off, one instance, fresh context — as long as the supervisor is not shut down,
+   everything below it has exited and the root runnable is alive *)
+Theorem C18_node_service_restarts : forall c h s x i,
+  node_run c h pinit = PRun s -> s_killed (p_sup s) = false -> find [x] (s_tree (p_sup s)) = Some i -> can sup_done_ready_needs_exit [x] i (s_tree (p_sup s)) = true ->
+  exists s', node_run c [PSup EGC; PSup (EBackoff [x]); PSup (EProcSchedule [x])] s = PRun s' /\ running [x] (p_sup s') = 1%nat /\ In x (p_started s') /\
+             (exists j, find [x] (s_tree (p_sup s')) = Some j /\ n_state j = SNew /\ n_flag j = false).
+Proof. exact (service_restarts node_tree). Qed.
+
+Theorem C18_node_restart_condition : forall u x i, Inv u -> find [x] (s_tree u) = Some i -> wanted (n_state i) = true ->
+  (forall z j, find z (s_tree u) = Some j -> is_prefix [x] z = true -> restartable sup_done_ready_needs_exit j = true) ->
+  (forall r, find [] (s_tree u) = Some r -> n_flag r = false /\ wanted (n_state r) = false) ->
+  can sup_done_ready_needs_exit [x] i (s_tree u) = true.
+Proof. exact can_service. Qed.
+
+(* ISOLATION: no step that is foreign to service y (see NodeTreeProofs.foreign: another service's or its children's start, calls, exit,
+   panic, the processing of its exit, its restart; the root runnable going on; a GC while nothing of y has died) changes y or anything
+   below it: nodes, everything in flight for them, and whether their contexts are cancelled.  In particular no failure of one watcher
+   ever cancels or restarts the processor or another chain's watcher. *)
+Theorem C18_node_isolation : forall c h s e s' y,
+  node_run c h pinit = PRun s -> node_step c s e = PRun s' -> foreign node_tree s y e ->
+  forall z, is_prefix [y] z = true ->
+    find z (s_tree (p_sup s')) = find z (s_tree (p_sup s)) /\
+    (forall k, In (z, k) (s_toks (p_sup s')) <-> In (z, k) (s_toks (p_sup s))) /\
+    cancelled z (s_tree (p_sup s')) = cancelled z (s_tree (p_sup s)).
+Proof. intros c h s e s' y Hrun. apply isolation_step. exact (C18_node_groups_are_the_run_statements c h s Hrun). Qed.
+
+(* the exit of another service x is foreign to y as soon as x <> y: with one service per statement the two are never in one group *)
+Theorem C18_node_other_service_exit_is_foreign : forall s x y k, x <> y -> foreign node_tree s y (PSup (EProcDied [x] k)).
+Proof.
+  intros s x y k Hne. cbn [foreign]. split; [exact Hne|]. destruct (same_stmt node_tree x y) eqn:E; [|reflexivity]. exfalso. apply Hne.
+  eapply singleton_same_stmt; [apply node_tree_ok|exact E].
+Qed.
+
+(* C18 (5) for the node: processKill happens only after rootCtx was cancelled, which only a started service holding rootCtxCancel can do;
+   afterwards nothing is started any more *)
+Theorem C18_node_kill_needs_root_cancel : forall c h s, node_run c h pinit = PRun s ->
+  (s_killed (p_sup s) = true -> p_rootctx s = true) /\ (p_rootctx s = true -> exists x, In x (p_started s) /\ holds_root_cancel node_tree x = true).
+Proof. exact (node_kill_needs_root_cancel node_tree). Qed.
+
+Theorem C18_node_no_starts_after_kill : forall c h s s' d,
+  s_killed (p_sup s) = true -> node_run c h s = PRun s' -> s_killed (p_sup s') = true /\ (running d (p_sup s') <= running d (p_sup s))%nat.
+Proof. exact (node_no_starts_after_kill node_tree). Qed.
+
+(* (d) THE ROOT RUNNABLE'S OWN RETURN.  `<-ctx.Done()` returns only after processKill (nothing else cancels the root's context while the
+   root runnable runs), so its `return nil` is never processed (C18_nothing_processed_after_kill) ... *)
+Theorem C18_node_root_wait_returns_only_after_kill : forall c h s f s',
+  node_run c h pinit = PRun s -> nth_error (prog_of node_tree c) (p_pc s) = Some RWaitCtx -> node_step c s (PRoot f) = PRun s' -> s_killed (p_sup s) = true.
+Proof. exact (root_wait_returns_only_after_kill node_tree). Qed.
+
+(* ... an error return (a rejected supervisor.Run, the failing Alephium watcher constructor) makes the root DEAD and cancels EVERY
+   service's context; once all of them have exited the GC drops the whole tree and the root runnable starts again after its back-off *)
+Theorem C18_node_root_failure_cancels_every_service : forall u k t' i,
+  Inv u -> proc_died [] k (s_tree u) = Some t' -> find [] (s_tree u) = Some i -> ~ (n_state i = SDone /\ k = RNil) -> ~ (cancelled [] (s_tree u) = true /\ k = RCtx) ->
+  (exists j, find [] t' = Some j /\ n_state j = SDead /\ n_flag j = true) /\
+  (forall z a, find z (s_tree u) = Some a -> exists a', find z t' = Some a' /\ cancelled z t' = true /\ (z <> [] -> n_state a' = n_state a)).
+Proof. exact root_failure_cancels_every_service. Qed.
+
+Theorem C18_node_root_restart_drops_the_tree : forall u i, Inv u -> find [] (s_tree u) = Some i -> can sup_done_ready_needs_exit [] i (s_tree u) = true ->
+  find [] (fst (gc sup_done_ready_needs_exit (s_tree u))) = Some (reset_info i) /\
+  In ([], TSleep (match n_state i with SDead => true | _ => false end)) (snd (gc sup_done_ready_needs_exit (s_tree u))) /\
+  (forall z, z <> [] -> find z (fst (gc sup_done_ready_needs_exit (s_tree u))) = None).
+Proof. exact root_restart_drops_the_tree. Qed.
+
+(* non-vacuity, on the extracted tree with every flag set, under the deterministic scheduler of model/NodeTree.v: all services are
+   started once; then the Ethereum watcher returns an error: it alone is started a second time, the processor and the other watchers keep
+   their single instance; a failing constructor restarts the services started before it *)
+From Coq Require Import String.
+Definition all_flags : cfg := fun _ => true.
+Definition svid (nm : string) : Z := sid node_tree nm.
+Example C18_node_example :
+  let m := play sup_done_ready_needs_exit node_tree all_flags 40 [PSup (EReturn [svid "ethwatch"%string] RErr)] (sim_init 0) in
+  let m' := play sup_done_ready_needs_exit node_tree all_flags 40 [] (sim_init 1) in
+  starts_of m [svid "ethwatch"%string] = 2%nat /\ starts_of m [svid "processor"%string] = 1%nat /\ starts_of m [svid "bscwatch"%string] = 1%nat /\ starts_of m [svid "alph-watcher"%string] = 1%nat /\
+  (exists s, sm_out m = PRun s /\ running [svid "processor"%string] (p_sup s) = 1%nat /\ running [svid "ethwatch"%string] (p_sup s) = 1%nat /\
+             foreign node_tree s (svid "processor"%string) (PSup (EProcDied [svid "ethwatch"%string] RErr))) /\
+  starts_of m' [svid "p2p"%string] = 2%nat /\ starts_of m' [svid "processor"%string] = 1%nat /\ starts_of m' [] = 2%nat.
+Proof. vm_compute. repeat split; try reflexivity. eexists. repeat split; try reflexivity; discriminate. Qed.
+
 Print Assumptions C18_at_most_one_instance.
 Print Assumptions C18_invariant.
 Print Assumptions C18_no_supervisor_panic.
@@ -132,3 +252,17 @@ Print Assumptions C18_no_starts_after_kill.
 Print Assumptions C18_done_exit_in_flight_refuted_processor_panic.
 Print Assumptions C18_done_exit_in_flight_refuted_two_instances.
 Print Assumptions C18_restart_refuted_below_completed_group_member.
+Print Assumptions node_tree_ok.
+Print Assumptions C18_node_at_most_one_instance.
+Print Assumptions C18_node_one_instance_per_service_function.
+Print Assumptions C18_node_groups_are_the_run_statements.
+Print Assumptions C18_node_service_exit_cancels_nobody_else.
+Print Assumptions C18_node_service_restarts.
+Print Assumptions C18_node_restart_condition.
+Print Assumptions C18_node_isolation.
+Print Assumptions C18_node_other_service_exit_is_foreign.
+Print Assumptions C18_node_kill_needs_root_cancel.
+Print Assumptions C18_node_no_starts_after_kill.
+Print Assumptions C18_node_root_wait_returns_only_after_kill.
+Print Assumptions C18_node_root_failure_cancels_every_service.
+Print Assumptions C18_node_root_restart_drops_the_tree.
